@@ -370,6 +370,15 @@ async fn network_connect(
     options: &MqttOptions,
     network_options: NetworkOptions,
 ) -> Result<Network, ConnectionError> {
+    #[cfg(feature = "verif")]
+    if let Some(transport) = crate::verif::take_transport() {
+        return Ok(Network::new(
+            transport?,
+            options.max_incoming_packet_size,
+            options.max_outgoing_packet_size,
+        ));
+    }
+
     // Process Unix files early, as proxy is not supported for them.
     #[cfg(unix)]
     if matches!(options.transport(), Transport::Unix) {
@@ -501,5 +510,25 @@ async fn mqtt_connect(
         Incoming::ConnAck(connack) if connack.code == ConnectReturnCode::Success => Ok(connack),
         Incoming::ConnAck(connack) => Err(ConnectionError::ConnectionRefused(connack.code)),
         packet => Err(ConnectionError::NotConnAck(packet)),
+    }
+}
+
+#[cfg(feature = "verif")]
+impl EventLoop {
+    /// Canonical rendering of everything that decides the loop's future behaviour
+    /// (no wall-clock instants). The request channel's content is known to the harness.
+    pub fn verif_digest(&self) -> String {
+        let keepalive = self
+            .keepalive_timeout
+            .as_ref()
+            .map(|s| s.deadline().saturating_duration_since(Instant::now()));
+        format!(
+            "{}|pending={:?}|chan={}|net={:?}|ka={:?}",
+            self.state.verif_digest(),
+            self.pending,
+            self.requests_rx.len(),
+            self.network.as_ref().map(|n| n.verif_buffers()),
+            keepalive
+        )
     }
 }
